@@ -617,6 +617,7 @@ func (x *Exec) resetPath() {
 	x.fileData = map[string]fileStub{}
 	x.hb = nil
 	x.syncs = nil
+	x.raceMsgs = nil
 	x.wtrack = nil
 	x.wtrackM = nil
 	x.sched = nil
